@@ -8,6 +8,7 @@ import (
 	"math/rand"
 	"os"
 	"strings"
+	"time"
 
 	"verifharness/internal/kit"
 	"verifharness/internal/sim"
@@ -574,6 +575,10 @@ func (w *walker) teardown() {
 		w.do(sim.Action{Op: "synctrials"})
 	}
 }
+
+// CaseTimeout: no time limit per history (histories of several hundred actions legitimately take long under load, and the
+// simulator shares process-wide state: the gRPC client factories, the table of generated trial names).
+func (world) CaseTimeout() time.Duration { return 0 }
 
 func (wd world) Gen(r *rand.Rand, i, n int) any {
 	cfg := genCfg(r)
